@@ -214,6 +214,8 @@ def plan(tier, seed):
     if tier == "quick":
         spre += ["rbd in (0, 1, 2)", "pbd in (0, 1, 3)", "tbd in (0, 1)", "ra + pa + ta == 0 or rbd + pbd + tbd == 0", "(not t0 and not t1) or ta + tbd == 0",
                  "ta in (0, 1, 3)", "(r0 or not r1) or ra + pa + rbd + pbd == 0"]
+    if tier == "thorough":
+        spre += ["ra + pa + ta == 0 or rbd + pbd + tbd == 0 or (ra == pa and tbd == 0)", "tbd in (0, 1, 2)"]
     units.append(Sel(name="scrg3", func="vp.props.C08:scrg3", params=sp, pre=spre, shard_by=["has_ts"], timeout=1500))
     if tier == "thorough":
         b4 = dict(_bond_params(4))
